@@ -72,15 +72,34 @@ def origin_of(func, name):
     return [norm(n.value) for n in walk_no_nested(func) if isinstance(n, ast.Assign) and any(isinstance(t, ast.Name) and t.id == name for t in n.targets)]
 
 
+def provenance(mod, func, name, depth=0):
+    """textual origins of a callee variable; a helper's parameter is traced to the arguments of the helper's call sites (one level)"""
+    out = list(origin_of(func, name))
+    params = [a.arg for a in func.args.args]
+    if name in params and depth < 2:
+        ix = params.index(name)
+        for caller in mod.funcs.values():
+            for n in walk_no_nested(caller):
+                if isinstance(n, ast.Call) and isinstance(n.func, ast.Name) and n.func.id == func.name and len(n.args) > ix:
+                    arg = n.args[ix]
+                    out.append(norm(arg))
+                    if isinstance(arg, ast.Name):
+                        out += provenance(mod, caller, arg.id, depth + 1)
+    return out
+
+
 def check_wrapper(chk):
     mod = chk.repo.module('runtime')
     n_fv = 0
     for fname, func in mod.funcs.items():
+        params = [a.arg for a in func.args.args]
         for call, callee in dynamic_calls(func):
-            origins = ' | '.join(origin_of(func, callee))
-            is_option_cb = ("options.get('logFn')" in origins or "options['logFn']" in callee or "options.get('urlFn')" in origins
-                            or "options['urlFn']" in callee)
-            is_fetch = "options.get('fetchFn')" in origins or "options['fetchFn']" in callee
+            origins = ' | '.join(provenance(mod, func, callee) if callee.isidentifier() else [callee]) + ' | ' + callee
+            is_fetch = "'fetchFn'" in origins
+            is_option_cb = "'logFn'" in origins or "'urlFn'" in origins
+            # calling convention of function values: f(<argument list>, options)
+            is_fv = len(call.args) == 2 and not call.keywords and isinstance(call.args[1], ast.Name) and call.args[1].id in params and call.args[1].id == 'options' \
+                and not is_fetch and not is_option_cb
             if is_fetch:
                 h = caught_by(call, 'Exception', func)
                 if h is None:
@@ -92,11 +111,73 @@ def check_wrapper(chk):
             if is_option_cb:
                 chk.ok('C05.W', f'{fname}: {norm(call)[:60]} is a host option callback (logFn/urlFn: trusted host configuration)', trivial=True)
                 continue
-            # a function value (script / library / host function)
+            if not is_fv:
+                chk.unrec('C05.W', f'{fname}: dynamic call {norm(call)[:80]} is neither a function value call f(args, options) nor a known option callback (origins: {origins[:120]})', mod.rel)
+                continue
             n_fv += 1
             _check_function_value_call(chk, mod, fname, func, call, callee)
     if n_fv == 0:
         raise Unrecognised('C05.W', 'no call of a function value found in runtime.py', mod.rel)
+
+
+def _handler_outcomes(stmts, err, is_va, local_defs, after):
+    """set of outcomes of a handler body when the caught error is / is not a ValueArgsError:
+    'RV' (error.return_value), 'None', ('const', v), ('other', text), 'raise'"""
+    def truth(test):
+        t = norm(test)
+        if err and t == f'isinstance({err}, ValueArgsError)':
+            return is_va
+        if err and t == f'not isinstance({err}, ValueArgsError)':
+            return not is_va
+        if isinstance(test, ast.Name) and test.id in local_defs:
+            return truth(local_defs[test.id])
+        return None
+
+    def value(v):
+        if v is None or (isinstance(v, ast.Constant) and v.value is None):
+            return {'None'}
+        if isinstance(v, ast.IfExp):
+            t = truth(v.test)
+            if t is True:
+                return value(v.body)
+            if t is False:
+                return value(v.orelse)
+            return value(v.body) | value(v.orelse)
+        if err and norm(v) == f'{err}.return_value':
+            return {'RV'} if is_va else {('other', f'{err}.return_value of a non-ValueArgsError')}
+        if isinstance(v, ast.Name) and v.id in local_defs:
+            return value(local_defs[v.id])
+        if isinstance(v, ast.Constant):
+            return {('const', repr(v.value))}
+        return {('other', norm(v)[:60])}
+
+    def block(body):
+        out = set()
+        for s in body:
+            if isinstance(s, ast.Return):
+                return out | value(s.value), False
+            if isinstance(s, ast.Raise):
+                return out | {'raise'}, False
+            if isinstance(s, ast.If):
+                t = truth(s.test)
+                branches = [s.body] if t is True else [s.orelse] if t is False else [s.body, s.orelse]
+                falls = False
+                for br in branches:
+                    o, f = block(br)
+                    out |= o
+                    falls = falls or f
+                if not falls:
+                    return out, False
+            elif isinstance(s, ast.Assign) and len(s.targets) == 1 and isinstance(s.targets[0], ast.Name):
+                local_defs[s.targets[0].id] = s.value
+        return out, True
+    out, falls = block(stmts)
+    if falls:
+        o2, f2 = block(after)
+        out |= o2
+        if f2:
+            out.add('None')       # falls off the end of the function
+    return out
 
 
 def _check_function_value_call(chk, mod, fname, func, call, callee):
@@ -135,38 +216,63 @@ def _check_function_value_call(chk, mod, fname, func, call, callee):
                 f'(e.g. a syntax error in a dataFilter expression) escapes instead of evaluating to null', node=tr)
     else:
         chk.ok('C05.O', f'{fname}: BareScriptRuntimeError re-raised before the catch-all around {norm(call)}')
-    if handler_reraises(catch_all) or any(isinstance(s, ast.Raise) for s in ast.walk(ast.Module(body=catch_all.body, type_ignores=[]))):
-        chk.bad('C05.W', mod, fname, f'catch-all around {norm(call)} raises', 'the catch-all handler of the call wrapper raises: host exceptions escape', node=catch_all)
-        return
-    # returns: error.return_value for ValueArgsError else None, on all paths
+    # outcomes of the catch-all: error.return_value for ValueArgsError, None otherwise (evaluated per case over the handler's branches)
     err = catch_all.name
-    rets = [s for s in ast.walk(ast.Module(body=catch_all.body, type_ignores=[])) if isinstance(s, ast.Return)]
-    texts = [norm(r.value) for r in rets]
-    va_ok = any(isinstance(s, ast.If) and err and f'isinstance({err}, ValueArgsError)' in norm(s.test) and
-                any(isinstance(b, ast.Return) and norm(b.value) == f'{err}.return_value' for b in s.body) for s in catch_all.body)
-    last = catch_all.body[-1]
-    none_ok = isinstance(last, ast.Return) and (last.value is None or norm(last.value) == 'None')
-    if va_ok and none_ok and set(texts) <= {f'{err}.return_value', 'None'}:
-        chk.ok('C05.W', f'{fname}: failing call evaluates to the declared failure value (ValueArgsError.return_value) or null')
-    else:
-        chk.bad('C05.W', mod, fname, f'catch-all returns {texts}',
-                'a failing function call must evaluate to error.return_value for ValueArgsError and to null otherwise', node=catch_all)
-    # logging under debug through logFn
-    logs = [n for s in catch_all.body for n in ast.walk(s) if isinstance(n, ast.Call) and 'logFn' in norm(n.func)]
-    if logs:
-        guard = None
-        for s in catch_all.body:
-            if isinstance(s, ast.If) and any(l in list(ast.walk(s)) for l in logs):
-                guard = norm(s.test)
-        if guard and "'debug'" in guard and 'logFn' in guard:
-            chk.ok('C05.W', f'{fname}: failure reported through logFn only when configured and in debug mode')
+    after = []
+    blk = getattr(tr, '_parent', None)
+    for field in ('body', 'orelse', 'finalbody'):
+        lst = getattr(blk, field, None)
+        if isinstance(lst, list) and tr in lst:
+            after = lst[lst.index(tr) + 1:] if blk is func else []
+            if blk is not func and lst[lst.index(tr) + 1:]:
+                after = None
+    if after is None:
+        raise Unrecognised('C05.W', f'{fname}: the call wrapper is followed by statements in a nested block', mod.rel)
+    good = True
+    for is_va in (True, False):
+        out = _handler_outcomes(catch_all.body, err, is_va, {}, after)
+        want = {'RV'} if is_va else {'None'}
+        if out == want:
+            continue
+        good = False
+        soft = {o for o in out if isinstance(o, tuple) and o[0] == 'other' and 'non-ValueArgsError' not in o[1]}
+        if soft and not (out - soft - want):
+            chk.unrec('C05.W', f'{fname}: catch-all outcome {sorted(map(str, out))} for {"ValueArgsError" if is_va else "other errors"} not understood', mod.rel)
         else:
-            chk.bad('C05.W', mod, fname, f'log guard: {guard}', 'the failure must be reported through logFn under the debug flag (and only when a logFn exists)', node=logs[0])
+            chk.bad('C05.W', mod, fname, f'catch-all outcome for {"ValueArgsError" if is_va else "other exceptions"}: {sorted(map(str, out))}',
+                    'a failing function call must evaluate to error.return_value for ValueArgsError and to null otherwise (and must not raise)', node=catch_all)
+    if good:
+        chk.ok('C05.W', f'{fname}: failing call evaluates to the declared failure value (ValueArgsError.return_value) or null (both cases evaluated over the handler)')
+    # logging under debug through logFn
+    local_defs = {}
+    for n in walk_no_nested(func):
+        if isinstance(n, ast.Assign) and len(n.targets) == 1 and isinstance(n.targets[0], ast.Name):
+            local_defs.setdefault(n.targets[0].id, []).append(n.value)
+
+    def expand(test, depth=0):
+        t = norm(test)
+        if depth < 3:
+            for x in ast.walk(test):
+                if isinstance(x, ast.Name) and x.id in local_defs and len(local_defs[x.id]) == 1:
+                    t += ' <- ' + expand(local_defs[x.id][0], depth + 1)
+        return t
+    logs = [n for s in catch_all.body for n in ast.walk(s) if isinstance(n, ast.Call) and ('logFn' in norm(n.func) or (isinstance(n.func, ast.Name) and any("'logFn'" in o for o in provenance(mod, func, n.func.id))))]
+    if logs:
+        guards = []
+        cur = getattr(logs[0], '_parent', None)
+        while cur is not None and cur is not catch_all:
+            if isinstance(cur, ast.If):
+                guards.append(expand(cur.test))
+            cur = getattr(cur, '_parent', None)
+        guard = ' && '.join(guards)
+        if "'debug'" in guard and ('logFn' in guard or 'log_fn' in guard):
+            chk.ok('C05.W', f'{fname}: failure reported through logFn only when configured and in debug mode')
+        elif not guards or "'debug'" not in guard and 'debug' not in guard:
+            chk.bad('C05.W', mod, fname, f'log guard: {guard or None}', 'the failure must be reported through logFn under the debug flag (and only when a logFn exists)', node=logs[0])
+        else:
+            chk.unrec('C05.W', f'{fname}: log guard {guard[:100]} not understood', mod.rel)
     else:
         chk.bad('C05.W', mod, fname, 'no logFn call in the catch-all', 'a failure inside a library or host function is no longer reported through logFn in debug mode', node=catch_all)
-    # nothing else in the try body that could mask: the try body should be the call (return)
-    if len(tr.body) != 1:
-        chk.note(f'{fname}: try around the function call has {len(tr.body)} statements')
 
 
 def check_escape(chk):
